@@ -18,7 +18,7 @@ from concurrent.futures import ThreadPoolExecutor
 
 from .common import Machinery, REPO
 
-DESCS = ["dnvgl", "omae", "windmeier"]
+DESCS = ["dnvgl", "omae", "windmeier", "omae_vhs"]
 PY = "/venv/bin/python"
 HERE = os.path.dirname(os.path.dirname(os.path.abspath(__file__)))
 
@@ -61,6 +61,41 @@ def key_of(desc, ops):
     return desc + ":" + ",".join((o["kind"] or o["op"]) + (str(o["arg"]) if o["op"] == "post" else "") for o in ops)
 
 
+def pattern_score(ops):
+    """number of (observable, later same observable) pairs with a mutator in between - the shape of history on which a
+    memo, a cache or a shared object shows"""
+    score = 0
+    for i, a in enumerate(ops):
+        if a["basis"] < 0:
+            continue
+        seen_mut, only_writes = False, True
+        for b in ops[i + 1:]:
+            if b["op"] == "mut":
+                seen_mut = True
+                only_writes = only_writes and not b["kind"].startswith("fit")
+            elif seen_mut and (b["op"], b["kind"]) == (a["op"], a["kind"]) and b["op"] != "post":
+                # direct writes bypass every invalidation that fit() performs: weigh them higher
+                score += (3 if b["op"] in ("tm", "contour") else 1) * (2 if only_writes else 1)
+    return score
+
+
+def select_sessions(all_sessions, n):
+    plain = all_sessions[: n // 4]
+    rest = sorted(range(n // 4, len(all_sessions)), key=lambda k: (-pattern_score(all_sessions[k]), k))
+    # at most two sessions per (set of repeated observables) so that the selection stays varied
+    out, seen = list(plain), {}
+    for k in rest:
+        ops = all_sessions[k]
+        sig = tuple(sorted({o["kind"] for o in ops if o["op"] in ("tm", "contour")}))
+        if seen.get(sig, 0) >= 2:
+            continue
+        seen[sig] = seen.get(sig, 0) + 1
+        out.append(ops)
+        if len(out) >= n:
+            break
+    return out[:n]
+
+
 def run_ext(ctx):
     ctx.model_check("Virocon", ctx.pick("MC_Virocon_quick.cfg", "MC_Virocon_thorough.cfg"),
                     must_cover=("New", "Mutate", "Eval", "Contour", "Post", "Wrap", "TmEval"), timeout=3000)
@@ -68,9 +103,12 @@ def run_ext(ctx):
                      ("WrapCopies", "ResultCurrent")):
         ctx.model_check("Virocon", f"MC_Virocon_mut_{dev}.cfg", expect_violation=inv)
     nses = ctx.pick(24, 240)
-    gen = ctx.generate("Virocon", "Gen_Virocon.cfg", simulate=f"num={nses}", depth=14, seed=ctx.seed + 7, workers=1,
+    # TLC simulates many more sessions than are replayed; the replayed ones are those richest in the pattern that
+    # exposes hidden state (the same observable before and after a mutator, wrapper reads on both sides of a mutator)
+    # plus a seeded quarter taken as they come
+    gen = ctx.generate("Virocon", "Gen_Virocon.cfg", simulate=f"num={nses * 40}", depth=14, seed=ctx.seed + 7, workers=1,
                        timeout=1200)
-    sessions = [g["hist"] for g in gen][:nses]
+    sessions = select_sessions([g["hist"] for g in gen], nses)
     workdir = str(ctx.work / "virocon")
     os.makedirs(workdir, exist_ok=True)
     tasks = [(DESCS[(k + ctx.seed) % len(DESCS)], ops, workdir) for k, ops in enumerate(sessions)]
